@@ -41,11 +41,15 @@ func OfString(str string) ByteSet {
 	return s
 }
 
-func (s ByteSet) Has(b byte) bool   { return s[b>>6]&(1<<(b&63)) != 0 }
-func (s ByteSet) Empty() bool       { return s[0]|s[1]|s[2]|s[3] == 0 }
-func (s ByteSet) IsFull() bool      { return s == Full() }
-func (s ByteSet) And(o ByteSet) ByteSet { return ByteSet{s[0] & o[0], s[1] & o[1], s[2] & o[2], s[3] & o[3]} }
-func (s ByteSet) Or(o ByteSet) ByteSet  { return ByteSet{s[0] | o[0], s[1] | o[1], s[2] | o[2], s[3] | o[3]} }
+func (s ByteSet) Has(b byte) bool { return s[b>>6]&(1<<(b&63)) != 0 }
+func (s ByteSet) Empty() bool     { return s[0]|s[1]|s[2]|s[3] == 0 }
+func (s ByteSet) IsFull() bool    { return s == Full() }
+func (s ByteSet) And(o ByteSet) ByteSet {
+	return ByteSet{s[0] & o[0], s[1] & o[1], s[2] & o[2], s[3] & o[3]}
+}
+func (s ByteSet) Or(o ByteSet) ByteSet {
+	return ByteSet{s[0] | o[0], s[1] | o[1], s[2] | o[2], s[3] | o[3]}
+}
 func (s ByteSet) Minus(o ByteSet) ByteSet {
 	return ByteSet{s[0] &^ o[0], s[1] &^ o[1], s[2] &^ o[2], s[3] &^ o[3]}
 }
@@ -113,11 +117,11 @@ func bstr(b int) string {
 type TermKind int
 
 const (
-	Move TermKind = iota // consume the byte, continue in state To
-	Call                 // consume the byte, push Ret, continue in state To (region entry)
-	Ret                  // consume the byte, pop, continue in the popped state
-	Exit                 // leave the function
-	CallM                // run the summarised machine Name from this byte (not consumed); continue in To at its end offset on success, in Fail on error
+	Move  TermKind = iota // consume the byte, continue in state To
+	Call                  // consume the byte, push Ret, continue in state To (region entry)
+	Ret                   // consume the byte, pop, continue in the popped state
+	Exit                  // leave the function
+	CallM                 // run the summarised machine Name from this byte (not consumed); continue in To at its end offset on success, in Fail on error
 )
 
 func (k TermKind) String() string { return [...]string{"move", "call", "ret", "exit", "callm"}[k] }
@@ -203,7 +207,9 @@ type LTS struct {
 	Entries map[string]int // named entry points (regions)
 }
 
-func New(name string) *LTS { return &LTS{Name: name, States: map[int]*State{}, Entries: map[string]int{}} }
+func New(name string) *LTS {
+	return &LTS{Name: name, States: map[int]*State{}, Entries: map[string]int{}}
+}
 
 func (l *LTS) State(id int) *State {
 	s := l.States[id]
